@@ -1,24 +1,64 @@
 #!/bin/bash
 # Builds /verif/bin/qfmc (and with argument "race" /verif/bin/qfmc-race) from
 # /verif/harness against /repo's current working tree.
+#
+# The harness reaches internal packages through the virtual package verifseam (one overlay file per
+# internal area) and two overlay files inside internal/sort and internal/fastcsv. If an internal API
+# changed so that a seam file no longer compiles, the build is retried with the stub of that area:
+# the check layers that need the seam are skipped (and say so), the rest keeps running.
+#
+# env: VERIF_REPO (default /repo), VERIF_BIN_DIR (default /verif/bin), VERIF_EXTRA_OVERLAY (file with
+#      additional `"dst": "src",` lines: files substituted in the tree under test; used by tools/)
 set -eu
 HERE="$(cd "$(dirname "$0")" && pwd)"
 REPO="${VERIF_REPO:-/repo}"
+BIN="${VERIF_BIN_DIR:-$HERE/bin}"
 export GOFLAGS=-mod=mod GOPROXY=off GOSUMDB=off GOTOOLCHAIN=local
-mkdir -p "$HERE/bin" "$HERE/build"
+mkdir -p "$BIN" "$HERE/build"
 cp "$REPO/go.sum" "$HERE/harness/go.sum"
-OV="$HERE/build/overlay.json"
-cat > "$OV.tmp.$$" <<EOF
-{"Replace": {
- "$REPO/verifseam/seam.go": "$HERE/harness/seam/seam.go",
- "$REPO/internal/sort/zz_verif.go": "$HERE/harness/seam/sort_zz_verif.go",
- "$REPO/internal/fastcsv/zz_verif.go": "$HERE/harness/seam/fastcsv_zz_verif.go"
-}}
-EOF
-mv "$OV.tmp.$$" "$OV"
-cd "$HERE/harness"
-if [ "${1:-}" = "race" ]; then
-  go build -race -tags verif -overlay "$OV" -o "$HERE/bin/qfmc-race.tmp.$$" . && mv "$HERE/bin/qfmc-race.tmp.$$" "$HERE/bin/qfmc-race"
-else
-  go build -tags verif -overlay "$OV" -o "$HERE/bin/qfmc.tmp.$$" . && mv "$HERE/bin/qfmc.tmp.$$" "$HERE/bin/qfmc"
-fi
+OV="$BIN/overlay.json"
+[ "$BIN" = "$HERE/bin" ] && OV="$HERE/build/overlay.json"
+RACE=""; OUT="$BIN/qfmc"
+if [ "${1:-}" = "race" ]; then RACE="-race"; OUT="$BIN/qfmc-race"; fi
+AREAS="core grouper sort csv strings ryu"
+STUBS=""
+for attempt in 1 2 3 4 5 6 7; do
+  {
+    echo '{"Replace": {'
+    [ -n "${VERIF_EXTRA_OVERLAY:-}" ] && cat "$VERIF_EXTRA_OVERLAY"
+    for a in $AREAS; do
+      case " $STUBS " in
+        *" $a "*) echo " \"$REPO/verifseam/$a.go\": \"$HERE/harness/seam/stub_$a.go\"," ;;
+        *) echo " \"$REPO/verifseam/$a.go\": \"$HERE/harness/seam/$a.go\","
+           [ $a = sort ] && echo " \"$REPO/internal/sort/zz_verif.go\": \"$HERE/harness/seam/sort_zz_verif.go\","
+           [ $a = csv ] && echo " \"$REPO/internal/fastcsv/zz_verif.go\": \"$HERE/harness/seam/fastcsv_zz_verif.go\"," ;;
+      esac
+    done
+    echo " \"$REPO/verifseam/doc.go\": \"$HERE/harness/seam/doc.go\""
+    echo '}}'
+  } > "$OV.tmp.$$"
+  mv "$OV.tmp.$$" "$OV"
+  if (cd "$HERE/harness" && go build $RACE -tags verif -overlay "$OV" -o "$OUT.tmp.$$" . 2> "$OV.err.$$"); then
+    mv "$OUT.tmp.$$" "$OUT"
+    rm -f "$OV.err.$$"
+    echo "$STUBS" > "$OUT.stubs"
+    [ -n "$STUBS" ] && echo "build.sh: seams not available for the tree under test (stubs used):$STUBS" >&2
+    exit 0
+  fi
+  NEW=""
+  for a in $AREAS; do
+    case " $STUBS " in *" $a "*) continue ;; esac
+    if grep -q -e "verifseam/$a\.go" -e "seam/$a\.go" "$OV.err.$$"; then NEW="$NEW $a"; fi
+  done
+  grep -q -e "internal/sort/zz_verif\.go" -e "sort_zz_verif\.go" "$OV.err.$$" && case " $STUBS $NEW " in *" sort "*) ;; *) NEW="$NEW sort" ;; esac
+  grep -q -e "internal/fastcsv/zz_verif\.go" -e "fastcsv_zz_verif\.go" "$OV.err.$$" && case " $STUBS $NEW " in *" csv "*) ;; *) NEW="$NEW csv" ;; esac
+  case " $NEW " in *" core "*) for a in grouper sort; do case " $STUBS $NEW " in *" $a "*) ;; *) NEW="$NEW $a" ;; esac; done ;; esac
+  if [ -z "$NEW" ]; then
+    cat "$OV.err.$$" >&2
+    rm -f "$OV.err.$$" "$OUT.tmp.$$"
+    exit 1
+  fi
+  STUBS="$STUBS$NEW"
+  rm -f "$OV.err.$$"
+done
+exit 1
